@@ -51,7 +51,7 @@ def _call(a):
         # to case and whitespace; the trailing r of the rhombohedral settings is part of the name in every spelling)
         k2 = int(abs(pos[1] * 1000) + abs(pos[2] * 100)) % 4
         nm = [name, name.lower(), name.upper(), " " + " ".join(name) + " "][k2]
-        return (structure.multiplicity(p1, sgno=no if k else np.int64(no), cell_choice=setting),
+        return (structure.multiplicity(p1, sgno=[np.int64(no), no, float(no)][k], cell_choice=setting),
                 structure.multiplicity(np.array(pos), sgname=nm))
     except Exception as ex:
         return repr(ex)
